@@ -8,8 +8,12 @@ if [ "$1" = "clean" ]; then
   rm -rf _run Makefile Makefile.conf .*.aux */.*.aux model.ml model.mli
 fi
 [ -f Makefile ] && [ Makefile -nt _CoqProject ] || coq_makefile -f _CoqProject -o Makefile >/dev/null
-timeout 3000 make -j"${VERIF_JOBS:-12}" 2>&1 | grep -v '^COQDEP\|^COQC\|^make\[' || true
-test -f extraction/Extract.vo || { echo "BUILD-FAILED: coq"; exit 2; }
+set +e
+timeout 3000 make -j"${VERIF_JOBS:-12}" > .make.log 2>&1
+mrc=$?
+set -e
+grep -v '^COQDEP\|^COQC\|^make\[' .make.log || true
+if [ $mrc -ne 0 ] || [ ! -f extraction/Extract.vo ]; then echo "BUILD-FAILED: coq (make exit $mrc)"; exit 2; fi
 mkdir -p _run
 if [ ! -x _run/runner ] || [ model.ml -nt _run/runner ] || [ extraction/driver.ml -nt _run/runner ]; then
   cp model.ml model.mli extraction/driver.ml _run/
